@@ -14,7 +14,7 @@ RULE = (
     "[plus a small 'cli_wiring' part: generated `taskiq worker` flag sets parsed by the real WorkerArgs.from_cli and turned into a receiver by the real start_listen(); the acknowledge type selected with --ack-type (any case; default when_saved) is the one the worker's receiver uses] "
     "Hypothesis-generated scenarios: 1-8 ackable messages (sync, async, future-returning or deferred ack callback, or one that itself raises - a call counts when the callback is entered; a few malformed/unknown), "
     "three acknowledge types, async bodies optionally with an asynchronous clean-up in `finally` (they finish only some time after a timeout cancels them), outcomes return / Exception / BaseException subclasses / timeout label exceeded / "
-    "no-result / result-backend failure on a generated subset of saves, save latency, A in 1..4, P in 0..3, max_tasks_to_execute in None|1..4, optional "
+    "no-result / result-backend failure on a generated subset of saves, save latency, optionally a post_execute middleware hook failing for some messages, A in 1..4, P in 0..3, max_tasks_to_execute in None|1..4, optional "
     "stop. Oracle over the trace of the real Receiver: ack count == 1 per well-formed message (<=1 for skipped); "
     "its position relative to enter / exit / save_end|save_failed per acknowledge type; and, for EVERY prefix of "
     "the trace (= crash after that event), no message is acked whose configured point is not inside the prefix. "
@@ -24,7 +24,7 @@ RULE = (
 ASSUMPTIONS = ["part pool_shutdown uses a real event loop and a real ThreadPoolExecutor; all other parts run on the virtual-time loop with inline sync functions", 
     "crash = the process vanishes after an observable event (trace prefix); cancellation-style kills are not modelled",
     "virtual-time loop, inline executor for sync tasks",
-    "failing middleware hooks are outside the quantifier of C02 (they are in C03's)",
+    "a failing post_execute hook (generated for some messages) may leave a when_saved message un-acknowledged (0 acks accepted there); if the message is acknowledged, the position rules bind as for any other; other failing hooks are in C03's domain",
 ]
 
 
@@ -38,6 +38,12 @@ def scenario(big: bool = False) -> Any:
         d["fail_saves"] = sorted(d["fail_saves"])
         d["horizon"] = cm.horizon_for(d)
         d["drain"] = 0.0
+        pf = sorted(i for i in d.pop("post_fail") if i < len(d["msgs"]))
+        pa = d.pop("post_async")
+        if pf:
+            # a post_execute middleware hook that fails for some messages: the receiver may leave such a message un-acknowledged,
+            # but if it does acknowledge it the configured point still binds
+            d["mws"] = [{"post_execute": {"async": pa, "fail_on": pf}}]
         return d
 
     msg = cm.message(kinds=("async", "async", "async", "async", "sync", "bad", "unknown"),
@@ -53,6 +59,8 @@ def scenario(big: bool = False) -> Any:
         "fail_save_ids": st.one_of(st.just([]), st.just([]), st.lists(st.integers(0, 5), max_size=2, unique=True).map(sorted)),
         "save_exc": st.sampled_from(["RuntimeError", "RuntimeError", "ConnectionError", "TimeoutError", "OSError", "ConnectionResetError", "ValueError", "BadStrError"]),
         "save_latency": st.sampled_from([0.0, 0.0, 0.05, 0.3]),
+        "post_fail": st.one_of(st.just([]), st.just([]), st.just([]), st.sets(st.integers(0, 7), min_size=1, max_size=3).map(sorted)),
+        "post_async": st.sampled_from([False, True]),
     }).map(fin)
 
 
@@ -96,6 +104,7 @@ def run_case(sc: Dict[str, Any]) -> Outcome:
     if res["listen_exc"] or res["deadlock"]:
         out.add("C02.a", f"listen() failed: {res['listen_exc']} deadlock={res['deadlock']}")
     taken = [m for t, k, m, kw in tr if k == "take"]
+    post_fail = {i for mw in sc.get("mws", []) for i in mw.get("post_execute", {}).get("fail_on", ())}
     overlapping = 0
     crash_points = 0
     for i in taken:
@@ -108,6 +117,8 @@ def run_case(sc: Dict[str, Any]) -> Outcome:
             continue
         if not res["returned"]:
             continue
+        if nack == 0 and at == "when_saved" and i in post_fail and "post_execute" in kinds:
+            continue        # the callback was aborted by the failing hook before its acknowledge point: never acked, the broker redelivers
         if nack != 1:
             out.add("C02.a", f"message {i} acked {nack} times ({at}); events={kinds}")
             if nack == 0:
@@ -155,7 +166,7 @@ def run_case(sc: Dict[str, Any]) -> Outcome:
     out.classes = [at] + [c for c, f in (("overlap", overlapping), ("non_return_outcome", nonret),
                                          ("save_failure", any(e[1] == "save_failed" for e in tr)),
                                          ("timeout_hit", any(e[1] == "save_start" and e[3].get("err") == "TimeoutError" for e in tr)),
-                                         ("async_ack", any(sp.get("ack") == "async" for sp in specs)), ("failing_ack", any(str(sp.get("ack")).endswith("_fail") for sp in specs))) if f]
+                                         ("async_ack", any(sp.get("ack") == "async" for sp in specs)), ("failing_post_execute_hook", bool(post_fail & set(taken))), ("failing_ack", any(str(sp.get("ack")).endswith("_fail") for sp in specs))) if f]
     return out
 
 
